@@ -342,7 +342,8 @@ def _loop_body_open(toks, i):
 
 
 def rule_R3(toks, fired):
-    """for (I, X) in ITER.enumerate() {B}  ->  { let mut I_ctr = 0usize; for X in ITER { let I = I_ctr; I_ctr += 1; B } }"""
+    """for (I, X) in ITER.enumerate() {B}  ->  let mut I_ctr = 0usize; for X in ITER { let I = I_ctr; I_ctr += 1; B }
+    (the loop must stand in statement position; otherwise rustc rejects the emitted file => exit 2)"""
     i = 0
     while i < len(toks):
         t = toks[i]
@@ -371,13 +372,14 @@ def rule_R3(toks, fired):
                     while X and X[0].kind == "ws": X = X[1:]
                     bc = match_close(toks, bo)
                     ctr = I + "_ctr"
-                    new = (synth("{ let mut %s = 0usize; " % ctr) + [toks[i]] + [S(" ", "ws")] + X + [S(" ", "ws")]
+                    pre = synth("let mut %s = 0usize; " % ctr)
+                    new = (pre + [toks[i]] + [S(" ", "ws")] + X + [S(" ", "ws")]
                            + toks[inn:e0] + [S(" ", "ws")] + [toks[bo]]
                            + synth(" let %s = %s; %s += 1;" % (I, ctr, ctr))
-                           + toks[bo + 1:bc + 1] + synth(" }"))
+                           + toks[bo + 1:bc + 1])
                     toks = toks[:i] + new + toks[bc + 1:]
                     fired["R3"] = fired.get("R3", 0) + 1
-                    i += len(synth("{ let mut %s = 0usize; " % ctr)) + 1
+                    i += len(pre) + 1
                     continue
         i += 1
     return toks
@@ -609,6 +611,13 @@ def stmt_bounds(toks, i):
         t = toks[j]
         if t.kind == "punct":
             if t.text in CLOSE:
+                if depth == 0 and t.text == "}":
+                    # a '}' that ends a block statement (for/while/if/match ...) is a statement boundary:
+                    # recognised by what follows it (a new statement starts with an identifier / deref)
+                    nx = next_code(toks, j + 1)
+                    if nx < len(toks) and ((toks[nx].kind == "ident" and toks[nx].text not in ("else", "as"))
+                                           or toks[nx].text in ("*", "#") or toks[nx].kind == "lifetime"):
+                        break
                 depth += 1
             elif t.text in OPEN:
                 if depth == 0:
@@ -705,7 +714,7 @@ def merge_fn(toks, opts, sections, fired):
     want_n = sections.get("nloops")
     maxk = 0
     for key in sections:
-        m = re.fullmatch(r"(loop|before_loop|body_start|body_end) (\d+)", key)
+        m = re.fullmatch(r"(loop|before_loop|body_start|body_end|iter) (\d+)", key)
         if m:
             maxk = max(maxk, int(m.group(2)))
     if want_n is not None and int(want_n) != len(lps):
@@ -713,12 +722,22 @@ def merge_fn(toks, opts, sections, fired):
     if maxk > len(lps):
         raise ExtractError(f"lost anchor: annotation for loop {maxk} but function has {len(lps)} loops")
     for key, text in sections.items():
-        m = re.fullmatch(r"(loop|before_loop|body_start|body_end) (\d+)", key)
+        m = re.fullmatch(r"(loop|before_loop|body_start|body_end|iter) (\d+)", key)
         if m:
             kind, k = m.group(1), int(m.group(2))
             li = lps[k - 1]
             bo = _loop_body_open(toks, li)
-            if kind == "loop":
+            if kind == "iter":
+                # name the ghost iterator of a for loop:  for x in /*@<*/it: /*@>*/EXPR
+                if toks[li].text != "for":
+                    raise ExtractError(f"lost anchor: loop {k} is not a for loop")
+                j = li + 1
+                while not (toks[j].kind == "ident" and toks[j].text == "in"):
+                    if toks[j].kind == "punct" and toks[j].text in ("(", "["):
+                        j = match_close(toks, j)
+                    j += 1
+                add(next_code(toks, j + 1), bracket((text.strip() or "it") + ": "))
+            elif kind == "loop":
                 add(bo, bracket("\n" + text + "\n"))
             elif kind == "before_loop":
                 # skip a loop label
@@ -941,6 +960,11 @@ def render_item(unit, kind, opts, sections):
         elif kind == "struct":
             item = filter_fields(item, None, fired)
         item = [t for t in item if t.kind != "comment"]
+        # item visibility widened to `pub` (pub open spec fns must be able to name the type); stated drop
+        kwi = next(i for i, t in enumerate(item) if t.kind == "ident" and t.text in ("struct", "enum"))
+        if kwi > 0:
+            item = item[kwi:]
+        item = [S("pub"), S(" ", "ws")] + item
         item = apply_rules(item, [r for r in rules if r not in ("R1", "R12")], fired)
         ruled = [Tok(t.kind, t.text, t.pos, t.syn) for t in item]
         text = untok(item)
@@ -966,6 +990,10 @@ def render_item(unit, kind, opts, sections):
     if ruled is not None:
         got = sig(lex(strip_sentinels(emitted)))
         want = sig(ruled)
+        if kind in ("struct", "enum"):
+            # visibility tokens are not part of the comparison (widened to pub, see above)
+            got = got[got.index(kind):]
+            want = want[want.index(kind):]
         if "as" in opts:
             want = [opts["as"] if (w == name) else w for w in want]
         if got != want:
